@@ -1600,6 +1600,91 @@ def vm_crosscheck(ctx, sample):
     return len(sample), bad
 
 
+# ---------------------------------------------------------------- GATT link: Gallina model vs the harness's fake link
+LINK_PRELUDE = """From Coq Require Import List NArith.
+From AHK Require Import Lib.Res Lib.ByteStr Model.Pdu Model.PduLink.
+Import ListNotations.
+Definition ids (l : list (list N)) : list N := map (fun w => hd 999%N w) l.
+Definition lat_of (l : list nat) : latency := fun k _ => nth k l 0.
+Definition pay (l : list nat) : list bytes := map (fun k => [N.of_nat k]) (seq 0 (length l)).
+Definition tie (l : list nat) : list N :=
+  ids (arrival (issue_seq 3 (combine l (pay l)))) ++ [777%N] ++ ids (arrival (issue_par 3 (combine l (pay l)))) ++ [777%N]
+  ++ ids (link_seq (lat_of l) 0 0 (pay l)) ++ [777%N] ++ ids (arrival (issue_par_f (lat_of l) 5 0 (pay l))) ++ [888%N].
+"""
+
+
+def link_sample(cases, outs_, per_profile=8):
+    """Multi-fragment requests of the ble stream, a few per latency profile: (profile, latencies, order seen by the accessory)."""
+    got, count = [], {}
+    for c, o in zip(cases, outs_):
+        lk = o["link"]
+        n = len(lk["issued_sizes"])
+        if not (2 <= n <= 14) or count.get((c["link"], n > 3), 0) >= per_profile // 2:
+            continue
+        count[(c["link"], n > 3)] = count.get((c["link"], n > 3), 0) + 1
+        lats = [link_latency(c["link"], k, sz, o["budget"], c["fs"] + len(c["body"])) for k, sz in enumerate(lk["issued_sizes"])]
+        got.append(dict(profile=c["link"], fs=c["fs"], body_len=len(c["body"]), mode=c["mode"], lats=lats, impl_order=list(lk["order"])))
+    return got
+
+
+async def fake_link_orders(lats):
+    """The harness's own fake link driven directly: sequentially awaited calls, and all calls started together."""
+    class Fixed(LinkLog):
+        pass
+    res = []
+    for par in (False, True):
+        lk = LinkLog("fixed", 1)
+        async def one(k):
+            lk.issued.append(b"x")
+            lk.inflight += 1
+            for _ in range(lats[k]):
+                await asyncio.sleep(0)
+            lk.inflight -= 1
+            lk.order.append(k)
+        if par:
+            await asyncio.gather(*(one(k) for k in range(len(lats))))
+        else:
+            for k in range(len(lats)):
+                await one(k)
+        res.append(list(lk.order))
+    return res
+
+
+def link_model_tie(ctx, sample):
+    """Model/PduLink.v evaluated inside Coq on the latencies the fake link used: (a) arrival (issue_seq ...) and link_seq must be the
+    order in which the REAL _write_pdu's fragments reached the characteristic; (b) issue_seq / issue_par must agree with the fake
+    link driven directly both ways (the fake is the environment the implementation is judged in: it must be the modelled one)."""
+    import re
+    import re
+    lists = "; ".join("[" + "; ".join(str(x) for x in smp["lats"]) + "]" for smp in sample)
+    out = coq_eval(ctx["verif"], "C17", "linktie", LINK_PRELUDE + f"Eval vm_compute in (flat_map tie [{lists}]).\n", timeout=300)
+    nums = [int(x) for x in re.findall(r"\d+", re.split(r"^\s*= ", out, flags=re.M)[-1].rsplit(":", 1)[0])]
+    blocks, cur = [], []
+    for x in nums:
+        if x == 888:
+            blocks.append(cur)
+            cur = []
+        else:
+            cur.append(x)
+    bad = []
+    if len(blocks) != len(sample):
+        return [dict(case="*", why=f"{len(sample)} requests, {len(blocks)} results")]
+    for smp, nums in zip(sample, blocks):
+        parts, cur = [], []
+        for x in nums:
+            if x == 777:
+                parts.append(cur)
+                cur = []
+            else:
+                cur.append(x)
+        parts.append(cur)
+        fseq, fpar = asyncio.run(fake_link_orders(smp["lats"]))
+        want = [fseq, fpar, fseq, fpar]
+        if parts != want or smp["impl_order"] != parts[0]:
+            bad.append(dict(case=smp, model=parts, fake_link=want))
+    return bad
+
+
 # ---------------------------------------------------------------- run
 def run(ctx):
     import logging
@@ -1747,6 +1832,8 @@ def _run(ctx, tier, seed):
                      ble_response_flag=",".join(sorted({str(f) for f in o["link"]["response_flags"]})) or "none",
                      ble_link_x_wwr_x_multi=f"{c['link']}/{'wwr' if 'write-without-response' in c['props'] else 'ack'}/{c['mode']}/"
                                             f"{'multi' if len(o['writes']) > 1 else 'single'}")
+
+    link_smp = link_sample(ble_cases, outs)
 
     # ---- ble histories on one real client object
     hist_cases = gen_ble_hist(tier, rng(seed, "c17hist"))
@@ -2027,6 +2114,17 @@ def _run(ctx, tier, seed):
             viols.append(violation("extraction-vs-vm_compute", f"{len(bad_xc)} of {n_xc} sampled requests: extracted driver and "
                                    f"vm_compute disagree, first on '{bad_xc[0]['request'][:80]}'", False, disagreements=bad_xc[:5],
                                    broken="extraction / ocaml/drv_c17.ml glue (or the cross-check's rendering)"))
+        bad_lk = link_model_tie(ctx, link_smp)
+        profs = {}
+        for x in link_smp:
+            profs[x["profile"]] = profs.get(x["profile"], 0) + 1
+        cov.extra["gatt_link_model_tie"] = dict(requests=len(link_smp), disagreements=len(bad_lk), by_latency_profile=profs,
+                                                reordered_when_concurrent=sum(1 for x in link_smp if sorted(x["lats"]) != x["lats"]))
+        if bad_lk:
+            viols.append(violation("gatt-link:model-vs-fake-link", f"{len(bad_lk)} of {len(link_smp)} sampled multi-fragment requests: Model/PduLink.v "
+                                   f"(issue_seq / issue_par / link_seq evaluated in Coq), the harness's fake GATT link and the order in which _write_pdu's "
+                                   f"fragments arrived disagree", False, disagreements=bad_lk[:5],
+                                   broken="Model/PduLink.v <-> harness LinkLog (the simulated GATT characteristic), or _write_pdu's write discipline"))
     del xc_stream[:]
 
     cov.extra["exhaustive"] = True
